@@ -115,4 +115,8 @@ theorem C10_annual_rebuilds (af : Aff) (jan1 : Int → Int) (aps shares : Rat) (
     rw [e]
     exact ih
 
+/-- **C10 (the summary date is inclusive in the source as in the model).**  Regenerated on every
+    run: the range selection stops at the first delta settling strictly after the summary date. -/
+theorem C10_summary_date_inclusive : Gen.summaryRangeOp = ">" := by decide
+
 end Acb
